@@ -125,6 +125,7 @@ class TRun(Run):
                     if tstate in TERMINAL:
                         self.viol("timeout:fired-for-finished-task:%s" % tstate, "rule %s fired although the timed task was already %s" % (on, tstate))
                     # never early: in every model of the path the latest reading of this tick is past the limit
+                    self.start_z3, self.last_hi = (start if is_sym(start) else None), (t_hi, lim)
                     self.oblig(t_hi - start >= lim, "timeout:fired-early:unit=%s" % on[-1], "rule %s fired before the task had been open for %d ms" % (on, lim))
                     fired_at[i] = stepno
                 elif i not in fired_at and tstate not in TERMINAL and self.tick_scans():
@@ -156,7 +157,14 @@ class TRun(Run):
         self.res.obligations += 1
         neg = z3.Not(cond)
         if I.check_sat(neg):
-            m = I.model(neg)
+            m = None
+            if "fired-early" in role and getattr(self, "start_z3", None) is not None and getattr(self, "last_hi", None) is not None:
+                # prefer a witness the real engine can be steered into: start in the middle of a second, tick a few hundred ms before the limit
+                pref = z3.And(neg, self.start_z3 % 1000 == 700, self.last_hi[0] == self.start_z3 + self.last_hi[1] - 300)
+                if I.check_sat(pref):
+                    m = I.model(pref)
+            if m is None:
+                m = I.model(neg)
             model = {k: str(m.eval(v, model_completion=True)) for k, v in self.sym.items()} if m is not None else {}
             self.res.violations.append(Violation(self.prop, role, desc, self.name, dict(decisions=list(I.path.taken), events=[e["event"] for e in self.log], rules=self.rules,
                                                                                          on_step=self.on_step, start_var=self.start_var, ev_reads=list(self.ev_reads), log=list(self.log)), model, None))
@@ -179,8 +187,9 @@ def confirm(v, oracles=()):
     m = v.model or {}
     # the clock offset of every event = (model reading inside the event) - (reading that stamped the task's start)
     model = model_for(rules, on_step)
-    steps = [{"op": "start", "mid": "m", "inputs": {}}]
     start_val = int(m.get(d["start_var"], 1000))
+    # the engine clock gets the sub-second phase the model's start has (a few ms of real time pass before the task is stamped)
+    steps = [{"op": "clock", "phase": start_val % 1000}, {"op": "start", "mid": "m", "inputs": {}}]
     offsets = []
     for ev, (lo, hi) in zip(events, d["ev_reads"]):
         val = int(m.get("clk%d" % hi, start_val)) if hi >= lo else start_val
@@ -225,7 +234,7 @@ def confirm(v, oracles=()):
     si = 0
     snaps = obs["snapshots"]
     # snapshot 0 = after start; then one per replay step
-    step_snaps = snaps[1:]
+    step_snaps = snaps[2:]  # snapshot 0: clock phase, 1: start, then one per replay step
     j = 0
     for ev, off in zip(events, offsets):
         if ev == "answer":
@@ -242,7 +251,9 @@ def confirm(v, oracles=()):
             lim = limit_ms(on)
             tt = [t for t in tl if t["nid"] == timed]
             if n > fired_before[i]:
-                if off + 2000 < lim:
+                # measured on the engine's own clock: the handler step was stamped before the timed task had been open for the limit
+                fired_ts = [t for t in tl if t["nid"] == "ts%d" % i]
+                if tt and fired_ts and tt[0]["start_time"] and fired_ts[0]["start_time"] and fired_ts[0]["start_time"] - tt[0]["start_time"] < lim:
                     roles.add("timeout:fired-early:unit=%s" % on[-1])
                 if tt and tt[0]["state"] in TERMINAL and tt[0]["end_time"] and False:
                     pass
